@@ -129,17 +129,26 @@ def u_shutdown_modify(ctx, index):
   shut = ctx.fresh(z3.RealSort(), 'MAX_UPDATES_PER_SECOND_ON_SHUTDOWN')
   lag = ctx.fresh(z3.RealSort(), 'MIN_TIMESTAMP_LAG')
   settings = Namespace('settings', {'MAX_UPDATES_PER_SECOND_ON_SHUTDOWN': shut, 'MIN_TIMESTAMP_LAG': lag})
+  # MAX_UPDATES_PER_SECOND_ON_SHUTDOWN has no default: when it is not configured, reading it raises KeyError
+  configured = ctx.choose(2, 'ON_SHUTDOWN configured') == 1
+  if not configured:
+    settings.missing = {'MAX_UPDATES_PER_SECOND_ON_SHUTDOWN'}
   ub = Bucket('UPDATE_BUCKET', log) if ctx.choose(2, 'UPDATE_BUCKET') else None
   cb = Bucket('CREATE_BUCKET', log) if ctx.choose(2, 'CREATE_BUCKET') else None
   ip = Interp(ctx, index, bindings={W: {'settings': settings, 'UPDATE_BUCKET': ub, 'CREATE_BUCKET': cb}})
   ip.ext['str_of'] = lambda ip2, v: 'text'
-  ip.run(W + ':shutdownModifyUpdateSpeed', [])
+  raised = None
+  try:
+    ip.run(W + ':shutdownModifyUpdateSpeed', [])
+  except PyRaise as e:
+    raised = e.exc
   ctx.cover('shutdown/returns')
+  ctx.check('C04/shutdownModifyUpdateSpeed/no_raise', z3.BoolVal(raised is None))
   l = settings.attrs['MIN_TIMESTAMP_LAG']
   ctx.check('C04/shutdownModifyUpdateSpeed/lag_zero', z3.BoolVal(isinstance(l, int) and l == 0) if not z3.is_expr(l) else l == 0)
   for b, name in ((ub, 'UPDATE_BUCKET'), (cb, 'CREATE_BUCKET')):
     ev = log.of(name + '.setCapacityAndFillRate')
-    if b is None:
+    if b is None or not configured:
       continue
     ok = len(ev) == 1
     ctx.check('C04/shutdownModifyUpdateSpeed/%s_limits_set_once' % name, z3.BoolVal(ok))
